@@ -65,7 +65,7 @@ func c06Sides(c *Ctx, a *sketchAnchors) {
 		}
 		c.R.check(ok, rule, "sides/"+shortFn(f), shortFn(f), c.fpos(f), "positive store encoded once with FlagTypePositiveStore, negative store once with FlagTypeNegativeStore, on every path", firstNonEmpty(found, "ok"))
 	}
-	if f := c.P.DeclaredMethod(a.DDSketch, "decodeAndMergeWith"); c.mustFunc(rule, f, "decodeAndMergeWith") {
+	if f := c.blockLoop(a); c.mustFunc(rule, f, "decodeAndMergeWith") {
 		paths, _ := exec(c, f, nil, 2)
 		arms, _ := dispatchArms(paths, func(t *Term) bool { return isMethodCall(t, "Type") })
 		for _, side := range []struct{ flag, fld string }{{"FlagTypePositiveStore", a.posField}, {"FlagTypeNegativeStore", a.negField}} {
@@ -438,7 +438,7 @@ func c06Additive(c *Ctx, a *sketchAnchors) {
 	pr := c.paginated()
 	n := 0
 	// (a) the sketch block loop
-	if f := c.P.DeclaredMethod(a.DDSketch, "decodeAndMergeWith"); c.mustFunc(rule, f, "decodeAndMergeWith") {
+	if f := c.blockLoop(a); c.mustFunc(rule, f, "decodeAndMergeWith") {
 		tc := newTermCtx(c.P)
 		for _, b := range f.Blocks {
 			for _, in := range b.Instrs {
@@ -614,7 +614,7 @@ func c06AppendOnly(c *Ctx, a *sketchAnchors) {
 			}
 		}
 	}
-	c.R.floor(rule, "buffer stores in encoders", n, 8)
+	c.R.floor(rule, "buffer stores in encoders", n, 6) // at least one per primitive encoder that writes bytes itself
 	// receivers unchanged by Encode
 	for _, t := range append([]string{}, "DDSketch", "DDSketchWithExactSummaryStatistics") {
 		nt := c.P.NamedType(pkgSketch, t)
